@@ -45,9 +45,10 @@ def _locked(name):
     return f
 
 
-def build_stir(omp=False):
-    """Incremental rebuild of the STIR libraries from /repo's working tree (hooks on)."""
-    tree = "stir-omp" if omp else "stir"
+def build_stir(omp=False, tree=None):
+    """Incremental rebuild of the STIR libraries from /repo's working tree (hooks on).
+    tree: "stir" (default), "stir-omp" (OpenMP), "stir-san" (ASan/UBSan-instrumented libraries)."""
+    tree = tree or ("stir-omp" if omp else "stir")
     d = os.path.join(B, tree)
     if not os.path.exists(os.path.join(d, "build.ninja")):
         rc, out = sh([os.path.join(V, "bin", "setup")], timeout=3000, env={"VERIF_REPO": REPO, "VERIF_BUILD": B, "VERIF_TREES": tree})
@@ -82,14 +83,16 @@ def _includes(tree):
             "-I/usr/include/hdf5/serial", "-I" + os.path.join(HARNESS, "common")]
 
 
-def build_driver(name, sources=None, omp=False, san=False, header_only=False, extra=()):
+def build_driver(name, sources=None, omp=False, san=False, header_only=False, extra=(), santree=False):
     """Compile harness/<name>.cxx against the freshly built STIR tree.  Re-compiles whenever a
-    dependency (any /repo header it includes, any STIR library, its own sources) is newer."""
-    tree = "stir-omp" if omp else "stir"
-    if not header_only or True:
-        build_stir(omp)
+    dependency (any /repo header it includes, any STIR library, its own sources) is newer.
+    san: ASan/UBSan on the driver translation unit (instruments header-only code under test);
+    santree: additionally link the ASan/UBSan-instrumented STIR libraries (.build/stir-san)."""
+    tree = "stir-san" if santree else ("stir-omp" if omp else "stir")
+    san = san or santree
+    build_stir(omp, tree=tree)
     sources = sources or [os.path.join(HARNESS, name + ".cxx")]
-    out = os.path.join(B, "drivers", name + ("-omp" if omp else "") + ("-san" if san else ""))
+    out = os.path.join(B, "drivers", name + ("-omp" if omp else "") + ("-san" if san else "") + ("tree" if santree else ""))
     os.makedirs(os.path.dirname(out), exist_ok=True)
     dep = out + ".d"
     regs, libs = ([], []) if header_only else _stir_link(tree)
